@@ -174,6 +174,10 @@ func subOptsFor(ch string) (centrifuge.SubscribeOptions, bool) {
 	case strings.HasPrefix(ch, "r"):
 		o.ExpireAt = time.Now().Unix() + 600
 		csr = true
+	case strings.HasPrefix(ch, "m"):
+		o.ExpireAt = time.Now().Unix() + 600
+		o.ServerTagsFilter = &centrifuge.FilterNode{Key: "role", Cmp: "eq", Val: "a"}
+		csr = true
 	}
 	return o, csr
 }
@@ -184,6 +188,9 @@ func (s *scn) install(cl *centrifuge.Client) {
 			s.record("subscribe", e.Channel)
 			d := s.decide("subscribe")
 			o, csr := subOptsFor(e.Channel)
+			if strings.HasPrefix(e.Channel, "m") {
+				o.Type = e.Type
+			}
 			s.finish(d, func(err error) { cb(centrifuge.SubscribeReply{Options: o, ClientSideRefresh: csr}, err) })
 		})
 	}
@@ -251,9 +258,23 @@ func (s *scn) install(cl *centrifuge.Client) {
 	}
 	if !s.missing["sub_refresh"] {
 		cl.OnSubRefresh(func(e centrifuge.SubRefreshEvent, cb centrifuge.SubRefreshCallback) {
-			s.record("sub_refresh", e.Channel)
 			d := s.decide("sub_refresh")
-			s.finish(d, func(err error) { cb(centrifuge.SubRefreshReply{ExpireAt: time.Now().Unix() + 600}, err) })
+			rep := centrifuge.SubRefreshReply{ExpireAt: time.Now().Unix() + 600}
+			info := e.Channel
+			if strings.HasPrefix(e.Channel, "m") {
+				s.mu.Lock()
+				changed := s.hr.Bool()
+				s.mu.Unlock()
+				rep.ServerTagsFilter = &centrifuge.FilterNode{Key: "role", Cmp: "eq", Val: "a"}
+				if changed {
+					rep.ServerTagsFilter.Val = "b"
+					if d.err == nil {
+						info += " server-tags-filter-changed"
+					}
+				}
+			}
+			s.record("sub_refresh", info)
+			s.finish(d, func(err error) { cb(rep, err) })
 		})
 	}
 	cl.OnDisconnect(func(e centrifuge.DisconnectEvent) { s.record("on_disconnect", fmt.Sprint(e.Code)) })
@@ -715,6 +736,18 @@ func (g *gen) script() []*frame {
 		}
 		add(first...)
 		cleanBody(r.Range(2, 14))
+	case "maprefresh":
+		add(item{cmd: g.validCmd("connect", false)})
+		add(item{cmd: &protocol.Command{Id: g.freshID(), Subscribe: &protocol.SubscribeRequest{Channel: "m0", Type: int32(centrifuge.SubscriptionTypeMap), Phase: centrifuge.MapPhaseState, Limit: 100}}})
+		for i, n := 0, r.Range(1, 3); i < n; i++ {
+			var items []item
+			for j, k := 0, r.Intn(3); j < k; j++ {
+				items = append(items, item{cmd: g.validCmd(kit.Pick(r, cleanKinds), false)})
+			}
+			items = append(items, item{cmd: &protocol.Command{Id: g.freshID(), SubRefresh: &protocol.SubRefreshRequest{Channel: "m0", Token: "stok"}}})
+			add(items...)
+		}
+		cleanBody(r.Range(0, 4))
 	case "preauth":
 		var it item
 		switch r.Intn(10) {
@@ -842,6 +875,7 @@ func runScenario(c *kit.Case, w *kit.World, node *centrifuge.Node, s *scn, reg f
 	continueAfterStop := s.profile == "wild" && r.Chance(1, 5)
 
 	sent := map[uint32]int{}    // reply-expecting commands handed to the client, per id
+	subRefreshOnMap := map[uint32]bool{}
 	sendIDs := map[uint32]int{} // one-way sends that carry an id anyway: 0 or 1 reply each (an OnCommandRead error is reported with the id)
 	var labels []string
 	allProceed := true
@@ -859,6 +893,9 @@ func runScenario(c *kit.Case, w *kit.World, node *centrifuge.Node, s *scn, reg f
 		pings := countPings(s.conn.T)
 		outstanding := pings > pingsAtLastPong
 		for _, cmd := range fr.decoded {
+			if kindOf(cmd) == "sub_refresh" && strings.HasPrefix(cmd.SubRefresh.Channel, "m") {
+				subRefreshOnMap[cmd.Id] = true
+			}
 			if expectsReply(cmd) {
 				sent[cmd.Id]++
 			} else if cmd.Id > 0 {
@@ -1020,6 +1057,15 @@ func runScenario(c *kit.Case, w *kit.World, node *centrifuge.Node, s *scn, reg f
 	nAsync, nHErr := s.nAsync, s.nHandlerErr
 	s.mu.Unlock()
 
+	filterChanged := false
+	for _, h := range hlog {
+		if h.Kind == "sub_refresh" && strings.HasSuffix(h.Info, "server-tags-filter-changed") {
+			filterChanged = true
+		}
+	}
+	if filterChanged {
+		c.Count("map_sub_refresh_filter_changed", 1)
+	}
 	replies := map[uint32]int{}
 	replySeq := map[uint32]int64{}
 	nReplies := 0
@@ -1120,6 +1166,12 @@ func runScenario(c *kit.Case, w *kit.World, node *centrifuge.Node, s *scn, reg f
 			break
 		}
 		if open && replies[id] < sent[id] {
+			if subRefreshOnMap[id] && filterChanged {
+				// one known way to get here, kept apart from every other unanswered command
+				c.Violation("c09-map-sub-refresh-left-unanswered-when-server-tags-filter-changes",
+					fmt.Sprintf("sub_refresh with id %d on a map subscription: OnSubRefresh returned a different ServerTagsFilter, the server unsubscribed the channel and never answered the command; the connection is still open", id), detail())
+				continue
+			}
 			c.Violation("c09-command-with-id-left-unanswered-on-open-connection",
 				fmt.Sprintf("%d command(s) with id %d were handled, %d replies arrived and the connection is still open", sent[id], id, replies[id]), detail())
 			break
@@ -1129,7 +1181,7 @@ func runScenario(c *kit.Case, w *kit.World, node *centrifuge.Node, s *scn, reg f
 		c.Count("open_at_end_all_answered", 1)
 		c.Count("replies_on_open_connections", nReplies)
 	}
-	if (s.profile == "clean" || s.profile == "pongstrict") && closed && !strictPong && mustClose == "" {
+	if (s.profile == "clean" || s.profile == "pongstrict" || s.profile == "maprefresh") && closed && !strictPong && mustClose == "" {
 		c.Count("clean_sequence_closed_"+fmt.Sprint(disc.Code), 1)
 	}
 	if reordered {
@@ -1220,11 +1272,31 @@ func runCase(c *kit.Case) {
 	reg := func(t *kit.RecTransport, s *scn) { regMu.Lock(); byT[t] = s; regMu.Unlock() }
 	useNodeHooks := r.Chance(1, 2)
 
+	// Map channels (for sub_refresh on a map subscription) are rare on purpose: that
+	// path has a known way of leaving a command unanswered, and a child stops after
+	// 50 violations.
+	useMap := r.Chance(1, 20)
+	mapScenario := r.Intn(scenariosPerCase)
 	cfg := centrifuge.Config{
 		ClientStaleCloseDelay: time.Hour,
 		ChannelMaxLength:      64,
 	}
+	if useMap {
+		cfg.Map.GetMapChannelOptions = func(ch string) centrifuge.MapChannelOptions {
+			if strings.HasPrefix(ch, "m") {
+				return centrifuge.MapChannelOptions{Mode: centrifuge.MapModeEphemeral, KeyTTL: time.Minute}
+			}
+			return centrifuge.MapChannelOptions{}
+		}
+	}
 	node, _ := w.NewNode(cfg, func(n *centrifuge.Node) {
+		if useMap {
+			mb, err := centrifuge.NewMemoryMapBroker(n, centrifuge.MemoryMapBrokerConfig{})
+			if err != nil {
+				panic(err)
+			}
+			n.SetMapBroker(mb)
+		}
 		n.OnConnecting(func(_ context.Context, e centrifuge.ConnectEvent) (centrifuge.ConnectReply, error) {
 			s := lookup(e.Transport)
 			if s == nil {
@@ -1298,13 +1370,16 @@ func runCase(c *kit.Case) {
 	for i := 0; i < scenariosPerCase; i++ {
 		s := &scn{c: c, w: w, idx: i, hr: kit.NewRand(c.Seed, uint64(c.Index)*64+uint64(i)+7_000_000), missing: map[string]bool{}}
 		s.profile = kit.Pick(r, []string{"clean", "clean", "clean", "pongstrict", "pongstrict", "preauth", "preauth", "connectfail", "wild", "wild", "wild", "wild"})
+		if useMap && i == mapScenario {
+			s.profile = "maprefresh"
+		}
 		s.proto = kit.Pick(r, []centrifuge.ProtocolType{centrifuge.ProtocolTypeJSON, centrifuge.ProtocolTypeProtobuf})
 		s.bytesMode = r.Chance(3, 4)
 		s.connectMode = "ok"
 		s.clientSideRefresh = r.Bool()
 		s.earlyHandlers = r.Bool()
 		s.nodeHooks = r.Bool()
-		strict := s.profile == "clean" || s.profile == "pongstrict"
+		strict := s.profile == "clean" || s.profile == "pongstrict" || s.profile == "maprefresh"
 		if s.profile == "connectfail" {
 			s.connectMode = kit.Pick(r, []string{"error", "disconnect", "nocreds"})
 		}
@@ -1332,7 +1407,7 @@ func runCase(c *kit.Case) {
 				s.pongTimeout = s.pingInterval / 2
 			}
 		}
-		if r.Chance(1, 3) {
+		if r.Chance(1, 3) && !(s.profile == "pongstrict" && s.pingInterval > 0) {
 			s.writeDelay = time.Duration(r.Range(1, 8)) * time.Millisecond
 			s.writeTimer = r.Bool()
 			s.maxInFrame = kit.Pick(r, []int{0, -1, 2})
@@ -1366,7 +1441,7 @@ func TestC09(t *testing.T) {
 			"the exact disconnect code is asserted only where the harness knows that nothing else could have closed the connection (first command of a connection; unsolicited pong after a settled clean sequence)",
 			"an application handler always calls its callback exactly once",
 		},
-		Cases: map[string]int{"quick": 700, "thorough": 10000},
+		Cases: map[string]int{"quick": 1500, "thorough": 15000},
 		RequireCounters: []string{"closed_before_auth", "preauth_strict_checked", "unsolicited_pong_closed", "unsolicited_pong_strict_checked", "pong_after_ping_accepted",
 			"open_at_end_all_answered", "async_replies_reordered", "duplicate_id_each_answered", "malformed_frames", "empty_frames", "multi_command_frames",
 			"frames_json", "frames_protobuf", "frames_do", "handlers_installed_before_connect", "cases_with_command_read_hooks",
